@@ -133,7 +133,9 @@ fn draw_export_to(rng: &mut Rng, sw: &Swarm, name: &str, shared: &[String]) -> S
         4..=7 => format!("{dir}{name}.ts"),
         8 => format!("{dir}{}.ts", name.to_lowercase()),
         _ => {
-            if sw.ts_ts && rng.pct(50) {
+            if sw.ts_ts && rng.pct(35) {
+                format!("{dir}{name}.js.ts")
+            } else if sw.ts_ts && rng.pct(50) {
                 format!("{dir}{name}.ts.ts")
             } else if sw.dotted {
                 format!("{dir}{name}.d.ts")
@@ -330,6 +332,7 @@ pub fn draw_universe(rng: &mut Rng, sw: &Swarm, n_syn: usize) -> Universe {
         if !sw.escapes {
             hs.retain(|h| !(corpus::L0_..=corpus::L4_).contains(h));
         }
+        hs.retain(|h| *h < corpus::VEC_A0);
         if !sw.unit_as {
             // `as` on a unit variant (known finding F7) only when the run opts in
             hs.retain(|h| *h != corpus::W3_);
@@ -809,19 +812,33 @@ pub fn gen_c17(seed: u64) -> Plan {
     // any base is deep) and a type that depends on it; non-exportable leaves come with the
     // universe
     let mut extra: Vec<Ty> = b.uni.leaves.clone();
+    if b.sw.der {
+        // non-exportable container roots whose contents are exportable
+        for h in [corpus::VEC_A0, corpus::OPT_USEG, corpus::BOX_C0] {
+            if b.rng.pct(50) {
+                extra.push(DER_BASE + h as Ty);
+            }
+        }
+    }
     if b.rng.pct(40) {
         let free: Vec<usize> = (0..SYN_SLOTS)
             .filter(|s| b.uni.table.syn[*s].ident.is_empty() && s % 8 != 4)
             .collect();
         if free.len() >= 3 {
             let (up, parent, grand) = (free[0], free[1], free[2]);
+            let sibling = b.uni.pool.iter().copied().find(|t| (*t as usize) < SYN_SLOTS);
+            // the above-root type has a (valid) dependency of its own: failing on the root
+            // must not have written that dependency first
+            let (up_body, up_deps) = match sibling {
+                Some(sib) if b.rng.pct(60) => (format!("{{ dep: {}, }}", b.uni.table.syn[sib as usize].ident), vec![sib as usize]),
+                _ => ("number".to_string(), vec![]),
+            };
             b.uni.table.syn[up] = SynSpec {
                 ident: "AboveRoot".into(),
                 path: Some("../../../../../../../../../up/AboveRoot.ts".into()),
-                body: "number".into(),
-                deps: vec![],
+                body: up_body,
+                deps: up_deps,
             };
-            let sibling = b.uni.pool.iter().copied().find(|t| (*t as usize) < SYN_SLOTS);
             let mut deps = vec![up];
             let mut body = "{ up: AboveRoot, }".to_string();
             if let Some(sib) = sibling {
